@@ -58,9 +58,9 @@ Print Assumptions getset_composes_file.
    long (two lines), one is empty; the -o file held junk before *)
 Definition ex_long : str := repeat 65 100.
 Definition ex_ar : archive :=
-  [ ([98;49], [([99;49], Some [65;67;71;84])]);
-    ([97],    [([99;49], Some [71;71])]);
-    ([98;48], [([99;49], Some ex_long); ([99;50], Some [])]) ].
+  [ ([98;49], Some [([99;49], Some [65;67;71;84])]);
+    ([97],    Some [([99;49], Some [71;71])]);
+    ([98;48], Some [([99;49], Some ex_long); ([99;50], Some [])]) ].
 Definition ex_decode (b : str) : option archive := match b with [1] => Some ex_ar | _ => None end.
 Definition ex_st : pstate :=
   {| p_fs := {| files := [([65], [1]); ([111], [74;85;78;75])]; nocreate := [[120]] |}; p_stdout := [] |}.
@@ -190,6 +190,16 @@ Example failures_nonvacuous :
   create_dispatch (ex_flags false false []) = DErr EBadCapacity /\
   create_dispatch (ex_flags false false [50;71]) = DProceed 2147483648 15 false /\
   fst (run_main ex_decode [116] (CmdCreate (ex_flags false false [50;71]) [110] (PipeFail None)) ex_st) = NonZero.
+Proof. repeat split; vm_compute; reflexivity. Qed.
+
+(* a damaged archive whose sample names load but whose contig metadata does not (observed on the real binary with
+   one flipped bit: "Null terminator not found"): listset prints the sample, listctg and getset fail *)
+Definition ex_dmg (b : str) : option archive := match b with [1] => Some [([100], None); ([97], Some [])] | _ => None end.
+Example damaged_metadata_nonvacuous :
+  (let r := run_main ex_dmg [116] (CmdListset [65] None) ex_st in fst r = Zero /\ p_stdout (snd r) = [100;10;97;10]) /\
+  fst (run_main ex_dmg [116] (CmdListctg [65] [[100]] None) ex_st) = NonZero /\
+  fst (run_main ex_dmg [116] (CmdGetset [65] [[97]; [100]] None None) ex_st) = NonZero /\
+  fst (run_main ex_dmg [116] (CmdGetset [65] [[97]] None None) ex_st) = Zero.
 Proof. repeat split; vm_compute; reflexivity. Qed.
 
 (* ---- create exits 0 only through finalize() = Ok, and then the output path holds what finalize wrote
